@@ -187,7 +187,7 @@ fn centroids_case(m: [usize; 3]) -> (bool, bool) {
     (new[(0, 0)] != c[0] as f32, new[(1, 0)] != c[1] as f32)
 }
 
-// @unit class=bounded tier=quick mem=heavy bound="n=3,k=2,dim=1,members=[0,0,1],|x|<=8" timeout=900 fns=linfa_clustering::k_means::algorithm::compute_centroids
+// @unit class=bounded tier=quick mem=light bound="n=3,k=2,dim=1,members=[0,0,1],|x|<=8" timeout=900 fns=linfa_clustering::k_means::algorithm::compute_centroids
 #[kani::proof]
 #[kani::unwind(5)]
 #[kani::stub(alloc::fmt::format, fmt_stub)]
@@ -196,7 +196,7 @@ fn c09_centroids_mean_001() {
     kani::cover!(moved0 && moved1);
 }
 
-// @unit class=bounded tier=quick mem=heavy bound="n=3,k=2,dim=1,members=[0,1,1],|x|<=8" timeout=900 fns=linfa_clustering::k_means::algorithm::compute_centroids
+// @unit class=bounded tier=quick mem=light bound="n=3,k=2,dim=1,members=[0,1,1],|x|<=8" timeout=900 fns=linfa_clustering::k_means::algorithm::compute_centroids
 #[kani::proof]
 #[kani::unwind(5)]
 #[kani::stub(alloc::fmt::format, fmt_stub)]
@@ -206,7 +206,7 @@ fn c09_centroids_mean_011() {
 }
 
 // cluster 0 is empty: it must keep its previous position
-// @unit class=bounded tier=quick mem=heavy bound="n=3,k=2,dim=1,members=[1,1,1],|x|<=8" timeout=900 fns=linfa_clustering::k_means::algorithm::compute_centroids
+// @unit class=bounded tier=quick mem=light bound="n=3,k=2,dim=1,members=[1,1,1],|x|<=8" timeout=900 fns=linfa_clustering::k_means::algorithm::compute_centroids
 #[kani::proof]
 #[kani::unwind(5)]
 #[kani::stub(alloc::fmt::format, fmt_stub)]
